@@ -1,4 +1,5 @@
 #!/bin/sh
+# NOTE: run ONE batch at a time (see DESIGN.md, end of section 4).
 # usage: seedbatch.sh <seed-out root> : runs seedtest.py on every variant directory that has a meta.json
 # and is not yet stored under /verif/seeded (or when FORCE=1); log in <root>/batch.log
 root=$1
@@ -7,7 +8,10 @@ for d in ${LIST:-"$root"/c*/[a-z]}; do
   id=$(python3 -c "import json,sys;m=json.load(open('$d/meta.json'));print(m['property']+'-'+m.get('variant','a'))")
   if [ -z "$FORCE" ] && [ -f "/verif/seeded/$id/meta.json" ]; then continue; fi
   echo "=== $id $(date +%T)" >> "$root/batch.log"
-  timeout 1500 python3 /verif/seedtest.py "$d" $SEEDARGS > "$root/$id.out" 2>&1; git -C /repo checkout -- . 2>/dev/null
+  timeout 1500 python3 /verif/seedtest.py "$d" $SEEDARGS > "$root/$id.out" 2>&1
+  # (a seedtest that was killed by the limit may have left its patch applied; undo it UNDER the lock, so that a
+  # batch running next to this one never has its freshly applied patch reverted)
+  flock /tmp/verif-repo.lock git -C /repo checkout -- . 2>/dev/null
   python3 - "$id" >> "$root/batch.log" <<'P'
 import json,sys
 m=json.load(open('/verif/seeded/%s/meta.json'%sys.argv[1]))
